@@ -21,6 +21,7 @@ from harness import core
 from harness.core import Broken, Ctx, Failure, LeanDriver, Prop, Result, diff_streams
 
 GEN_FILE = core.LEAN / "QmiModel" / "Gen" / "LockFsm.lean"
+GEN_TOKEN_FILE = core.LEAN / "QmiModel" / "Gen" / "TokenProg.lean"
 
 _EXC = {"UnboundLocalError": "unboundLocalError", "ValueError": "valueError", "TypeError": "typeError",
         "AttributeError": "attributeError", "AssertionError": "assertionError", "NameError": "nameError",
@@ -263,6 +264,104 @@ def render_gen(t: dict) -> str:
     L.append("")
     L.append("end QmiModel.Gen.LockFsm")
     return "\n".join(L) + "\n"
+
+
+# ---------------------------------------------------------------------------
+# translator 2: statement list of QMI_Context.make_unique_token from its AST -> Gen/TokenProg.lean
+# ---------------------------------------------------------------------------
+
+def _is_self_attr(node, attr: str) -> bool:
+    import ast
+    return (isinstance(node, ast.Attribute) and node.attr == attr and isinstance(node.value, ast.Name) and node.value.id == "self")
+
+
+def build_token_prog() -> dict:
+    """Reads the *current* source of make_unique_token; every statement must be one the model knows."""
+    import ast
+    src = (core.REPO / "qmi" / "core" / "context.py").read_text()
+    fn = None
+    for node in ast.walk(ast.parse(src)):
+        if isinstance(node, ast.ClassDef) and node.name == "QMI_Context":
+            for m in node.body:
+                if isinstance(m, ast.FunctionDef) and m.name == "make_unique_token":
+                    fn = m
+    if fn is None:
+        raise TranslatorError("QMI_Context.make_unique_token not found")
+    argnames = [a.arg for a in fn.args.args]
+    if argnames != ["self", "prefix"]:
+        raise TranslatorError(f"make_unique_token arguments changed: {argnames}")
+    prog = []
+    shape = None
+
+    def stmt(st, inside_lock: bool):
+        nonlocal shape
+        if isinstance(st, ast.Expr) and isinstance(st.value, ast.Constant) and isinstance(st.value.value, str):
+            return                                                       # docstring
+        if isinstance(st, ast.With):
+            if len(st.items) != 1 or st.items[0].optional_vars is not None or not _is_self_attr(st.items[0].context_expr, "_unique_counters_lock"):
+                raise TranslatorError(f"line {st.lineno}: `with` on something else than self._unique_counters_lock")
+            prog.append("acquire")
+            for b in st.body:
+                stmt(b, True)
+            prog.append("release")
+            return
+        if isinstance(st, ast.Assign) and len(st.targets) == 1:
+            tg, v = st.targets[0], st.value
+            # nr = self._unique_counters.get(prefix, 0) + 1
+            if (isinstance(tg, ast.Name) and tg.id == "nr" and isinstance(v, ast.BinOp) and isinstance(v.op, ast.Add)
+                    and isinstance(v.right, ast.Constant) and v.right.value == 1 and isinstance(v.left, ast.Call)
+                    and isinstance(v.left.func, ast.Attribute) and v.left.func.attr == "get"
+                    and _is_self_attr(v.left.func.value, "_unique_counters") and len(v.left.args) == 2
+                    and isinstance(v.left.args[0], ast.Name) and v.left.args[0].id == "prefix"
+                    and isinstance(v.left.args[1], ast.Constant) and v.left.args[1].value == 0 and not v.left.keywords):
+                prog.append("read")
+                return
+            # self._unique_counters[prefix] = nr
+            if (isinstance(tg, ast.Subscript) and _is_self_attr(tg.value, "_unique_counters") and isinstance(tg.slice, ast.Name)
+                    and tg.slice.id == "prefix" and isinstance(v, ast.Name) and v.id == "nr"):
+                prog.append("write")
+                return
+        if isinstance(st, ast.Return) and isinstance(st.value, ast.Call) and isinstance(st.value.func, ast.Name) \
+                and st.value.func.id == "QMI_LockTokenDescriptor" and len(st.value.args) == 2 and not st.value.keywords \
+                and _is_self_attr(st.value.args[0], "name"):
+            parts = []
+
+            def flat(e):
+                if isinstance(e, ast.BinOp) and isinstance(e.op, ast.Add):
+                    flat(e.left)
+                    flat(e.right)
+                elif isinstance(e, ast.Name) and e.id == "prefix":
+                    parts.append(".pfx")
+                elif _is_self_attr(e, "_instance_id"):
+                    parts.append(".instanceId")
+                elif isinstance(e, ast.Constant) and isinstance(e.value, str):
+                    parts.append(".lit " + _lean_str(e.value))
+                elif (isinstance(e, ast.Call) and isinstance(e.func, ast.Name) and e.func.id == "str" and len(e.args) == 1
+                      and isinstance(e.args[0], ast.Name) and e.args[0].id == "nr" and not e.keywords):
+                    parts.append(".counter")
+                else:
+                    raise TranslatorError(f"line {e.lineno}: unknown part of the token string: {ast.unparse(e)}")
+            flat(st.value.args[1])
+            shape = parts
+            prog.append("ret")
+            return
+        raise TranslatorError(f"make_unique_token line {st.lineno}: statement not understood: {ast.unparse(st)[:120]}")
+
+    for st in fn.body:
+        stmt(st, False)
+    if shape is None:
+        raise TranslatorError("make_unique_token has no recognised return statement")
+    return {"prog": prog, "shape": shape}
+
+
+def render_token_gen(t: dict) -> str:
+    return ("import QmiModel.Model.TokenProg\n/-!\n# GENERATED by harness/props/c04.py:translate() — do not edit\n\n"
+            "Statement list of `QMI_Context.make_unique_token` (qmi/core/context.py) read from its AST: the\n"
+            "`with self._unique_counters_lock:` block is `acquire … release`; `shape` is the token string expression.\n-/\n"
+            "namespace QmiModel.Gen.TokenProg\nopen QmiModel.TokenProg\n"
+            f"def prog : List Instr := [{', '.join('.' + p for p in t['prog'])}]\n"
+            f"def shape : List TokPart := [{', '.join(t['shape'])}]\n"
+            "end QmiModel.Gen.TokenProg\n")
 
 
 # ---------------------------------------------------------------------------
@@ -1131,14 +1230,16 @@ _MALFORMED = [("lock x -", "bad-op"), ("lock 0", "bad-op"), ("lock 0 x", "bad-op
 
 class C04(Prop):
     id = "C04"
-    lean_modules = ["QmiModel.Props.C04"]
+    lean_modules = ["QmiModel.Props.C04", "QmiModel.Props.C04Atomic"]
+    props_files = ["QmiModel/Props/C04.lean", "QmiModel/Props/C04Atomic.lean"]
     driver = "drv_c04"
     modelled_not_verified = [
         "message transport between proxy and worker (QMI_RpcFuture, MessageRouter, TCP peers): a request reaches the worker and "
         "its reply reaches the caller unchanged — exercised over real loopback TCP here, verified by C01/C06, not by C04",
-        "atomicity of QMI_Context.make_unique_token (counter read+write under _unique_counters_lock) and of one request handled by "
-        "the worker: assumed by the model (`freshToken`, `lockRequest` are single actions), checked over interleavings by the "
-        "schedule family (harness.simworld, line-level yield points), not proved",
+        "one request handled by the worker is a single action of the model (`lockRequest`/`callRequest`): the worker is one thread "
+        "taking requests from its FIFO one at a time (C03's subject); checked over interleavings by the schedule family, not proved here",
+        "threading.Lock gives mutual exclusion and each of `dict.get` / `dict.__setitem__` is atomic under the GIL (premises of "
+        "Props/C04Atomic.lean, whose statement list of make_unique_token is generated from the AST)",
         "QMI_RpcProxy.lock(timeout > 0) retry loop (only the single-attempt path timeout=0 is modelled)",
         "str(int) of the token counter = Lean `toString` on Nat (differentially checked by every automatic lock())",
         "freshness of QMI_Context._instance_id (os.urandom(6)): the theorems assume the identifiers of distinct context instances "
@@ -1157,6 +1258,10 @@ class C04(Prop):
         t = build_tables(random.Random(f"C04-translate:{ctx.seed}"))
         core.write_if_changed(GEN_FILE, render_gen(t))
         self._tables = t
+        tp = build_token_prog()
+        core.write_if_changed(GEN_TOKEN_FILE, render_token_gen(tp))
+        self._token_prog = tp
+        return [GEN_FILE, GEN_TOKEN_FILE]
         return [GEN_FILE]
 
     # -- helpers --------------------------------------------------------------------------------
